@@ -101,6 +101,17 @@ def validate(source: str, filename: str, tc_string, info):
         compile(out, filename, "exec", dont_inherit=True)
     except BaseException as e:  # noqa: BLE001
         raise Violation("does-not-compile", case, f"transformed tree does not compile: {type(e).__name__}: {e}")
+    # the IPython magic keeps ONE transformer instance and applies it to every cell: a reused instance must transform
+    # exactly like a fresh one
+    key = repr(tc_string)
+    if key not in _SHARED:
+        _SHARED[key] = JaxtypingTransformer(typechecker=Typechecker(tc_string))
+    tree2 = ast.parse(source, filename)
+    out2 = _SHARED[key].visit(tree2)
+    ast.fix_missing_locations(out2)
+    if ast.dump(out2, include_attributes=True) != ast.dump(out, include_attributes=True):
+        raise Violation("reused-transformer", case, "a transformer instance that has already transformed other modules (as the IPython magic reuses it) "
+                                                    "produces a different tree than a fresh instance: " + first_difference(out, out2))
     checked = 0
     # ---- 1. the import
     body0 = tree0.body
@@ -165,6 +176,15 @@ def validate(source: str, filename: str, tc_string, info):
         "nested": nesting_depth(tree0) >= 2,
     }
     return ndefs, checked, feats
+
+
+_SHARED = {}
+
+
+def first_difference(a, b):
+    da, db = ast.dump(a, include_attributes=True), ast.dump(b, include_attributes=True)
+    i = next((i for i, (x, y) in enumerate(zip(da, db)) if x != y), min(len(da), len(db)))
+    return f"...{da[max(0, i - 60):i + 60]!r} vs ...{db[max(0, i - 60):i + 60]!r}"
 
 
 def nesting_depth(node, d=0):
